@@ -20,6 +20,7 @@ Apply(cc, l) ==
     [] l[1] = "srv" -> LET f == SrvFrame(cc, l[2]) IN
                        IF ~cc.busy THEN [ev |-> RxEv(f), c |-> cc, x |-> << <<"cb", "canrx", RxId>> >>]
                        ELSE LET r == Resp(cc, f) IN [ev |-> RxEv(f), c |-> r.c, x |-> IF r.open THEN << <<"stop">> >> ELSE r.out]
+    [] l[1] = "reset" -> [ev |-> <<"rx", 0, 2, l[2], NodeId, 0, 0, 0, 0, 0, 0>>, c |-> C0, x |-> << <<"free">> >>]     \* SDO clients idle after a reset, nothing armed
     [] l[1] = "tick" -> LET r == Tick(cc) IN [ev |-> <<"tick">>, c |-> r.c, x |-> r.out]
     [] l[1] = "ubuf" -> [ev |-> <<"ubuf", 0>>, c |-> cc, x |-> IF cc.buf = <<>> THEN << <<"free">> >> ELSE << <<"ubuf", 0>> \o cc.buf >>]
     [] l[1] = "pool" -> [ev |-> <<"pool">>, c |-> cc, x |-> << <<"acts", PoolN - (IF cc.rem > 0 THEN 1 ELSE 0)>> >>]
@@ -31,7 +32,7 @@ Rec(step) == /\ hist' = (IF Walk THEN Append(hist, step) ELSE <<step>>)
 Cbs(x) == Cardinality({k \in 1..Len(x) : x[k][1] = "cb" /\ x[k][2] = "csdo"})
 StepOk(c0, l, a) ==
   /\ Cbs(a.x) <= 1
-  /\ (Cbs(a.x) = 1) <=> (c0.busy /\ ~a.c.busy)
+  /\ (l[1] # "reset" => ((Cbs(a.x) = 1) <=> (c0.busy /\ ~a.c.busy)))
   /\ (~a.c.busy => a.c.rem = 0)
   /\ (l[1] \in {"up", "down"} /\ c0.busy => a.c = c0)
   /\ (l[1] = "tick" /\ c0.rem = 1 => \E k \in 1..Len(a.x) : a.x[k] = Tx(<<128>> \o Mx \o TIMEOUT))
